@@ -374,6 +374,19 @@ func main() {
 			}
 		}
 	}
+	// e2b. arguments that share structure: the same container reachable from two arguments (and
+	// twice from one); a function that writes into an argument can tie a knot and never finish
+	for _, fn := range names {
+		up := strings.ToUpper(fn)
+		if strings.HasPrefix(up, "IO::") || up == "DOCUMENT" || up == "DOWNLOAD" || up == "PDF" || up == "SCREENSHOT" || up == "WAIT" || strings.HasPrefix(up, "WAIT_") || up == "PRINT" || up == "PAGINATION" {
+			continue
+		}
+		for _, pre := range []string{"LET i = {} LET a = {k: i} LET b = {k: {loop: i}} ", "LET i = [] LET a = [i] LET b = [[i], i] ", "LET i = {x: 1} LET a = {k: i, l: i} LET b = {k: {k: i}, l: [i]} "} {
+			for _, call := range []string{"(a, b)", "(b, a)", "(a, a)", "(a, b, a)", "([a, b])"} {
+				add(task{Kind: "query", Query: pre + "RETURN [" + fn + call + ", a, b]", Origin: "fn-aliased-args"})
+			}
+		}
+	}
 	// e3. numeric functions with degenerate steps / bounds / counts (zero, negative, NaN-producing)
 	for _, q := range []string{"RANGE(1, 2, 0)", "RANGE(1, 5, -1)", "RANGE(5, 1, -1)", "RANGE(5, 1)", "RANGE(-5, -1)", "RANGE(1, 2, 0.0)", "RANGE(0, 1, 0.3)", "RANGE(1, 2, -0.5)", "RANGE(2, 1, 0)",
 		"RANGE(1, 3, 1e-320)", "RANDOM_TOKEN(-1)", "RANDOM_TOKEN(0)", "SUBSTRING(\"abc\", -1, 5)", "SUBSTRING(\"abc\", 2, -1)", "LEFT(\"abc\", -1)", "RIGHT(\"abc\", -1)", "SLICE([1,2,3], 5, -2)",
